@@ -712,7 +712,7 @@ func phase(name string) {
 }
 
 func runC25(c *C) {
-	c.R.Rule = "strings: ALL 1- and 2-byte strings x both EmitASCII settings; 3-byte strings starting E0/ED/EF (quick: all second bytes x boundary third bytes with the model, thorough: all); 4-byte strings around the F0/F4 tables; invalid-UTF-8 families; C0/C1/DEL/U+2028/U+2029/U+FFFD/astral runes; PRNG strings <= 64 bytes (five byte distributions). A string case is non-trivial when the encoder leaves the plain-copy path (an escape is written or a multi-byte rune is copied); distinct by (bytes, ascii). Literal-side cases (random escape soups, both quote kinds, adjacent literals, comments) are non-trivial when they parse and contain a backslash. Unknown-field sets: grammar-generated (all wire types, nested/empty groups, non-minimal tags, lengths and end tags, numbers up to 2^31-1), non-trivial when non-empty."
+	c.R.Rule = "strings: ALL 1- and 2-byte strings x both EmitASCII settings; all 3-byte strings starting E0/ED/EF on the implementation (property predicates), with the model on all second bytes x 18 boundary third bytes (thorough tier: on all of them, plus all 3-byte strings starting E1/E2/EC/EE on the implementation); 4-byte strings around the F0/F4 tables; invalid-UTF-8 families; C0/C1/DEL/U+2028/U+2029/U+FFFD/astral runes; PRNG strings <= 64 bytes (five byte distributions). A string case is non-trivial when the encoder leaves the plain-copy path (an escape is written or a multi-byte rune is copied); distinct by (bytes, ascii). Literal-side cases (random escape soups, both quote kinds, adjacent literals, comments) are non-trivial when they parse and contain a backslash. Unknown-field sets: grammar-generated (all wire types, nested/empty groups, non-minimal tags, lengths and end tags, numbers up to 2^31-1), non-trivial when non-empty."
 	// replayed inputs first
 	for _, raw := range c.ReplayInputs() {
 		var probe struct {
